@@ -162,6 +162,27 @@ fn members(t: &Tree, o: ArchiveOpts, rng: &mut Rng) -> (Vec<Member>, Tree) {
     (v, eff)
 }
 
+/// a member as register_file parses it: directory segments ++ [stem], extension
+fn member_coq(m: &Member) -> String {
+    let (path, is_dir) = match m {
+        Member::File(p, _) => (p.as_str(), false),
+        Member::Dir(p) => (p.as_str(), true),
+    };
+    let path = path.strip_prefix("./").unwrap_or(path).trim_end_matches('/');
+    let mut segs: Vec<String> = path.split('/').map(|x| x.to_string()).collect();
+    if is_dir {
+        format!("MDir {}", id_coq(&segs))
+    } else {
+        let last = segs.pop().unwrap();
+        let (stem, ext) = match last.rfind('.') {
+            Some(i) => (last[..i].to_string(), last[i + 1..].to_string()),
+            None => (last.clone(), String::new()),
+        };
+        segs.push(stem);
+        format!("MFile {} {}", id_coq(&segs), cstr(&ext))
+    }
+}
+
 fn zip_bytes(ms: &[Member], o: ArchiveOpts) -> Vec<u8> {
     let mut w = zip::ZipWriter::new(std::io::Cursor::new(Vec::new()));
     let opts = zip::write::FileOptions::default().compression_method(if o.deflate {
@@ -388,8 +409,10 @@ pub fn run(a: &Args) {
     let n_trees = if a.thorough() { 120 } else { 12 };
     let mut cases = Cases::new();
     let g = cases.group("src_cases", "tree * list (query * answer)");
+    let ga = cases.group("arch_cases", "list member * list (query * answer)");
     let mut labels: std::collections::BTreeMap<String, u64> = Default::default();
     let mut iter_bad = vec![];
+    let mut arch: Vec<(String, String, bool)> = vec![];
     let mut push = |cases: &mut Cases, t: &Tree, label: String, qa: Vec<String>| {
         *labels.entry(label.split(' ').next().unwrap().to_string()).or_insert(0) += 1;
         let coq = format!("({}, {})", t.coq(), clist(&qa));
@@ -434,9 +457,21 @@ pub fn run(a: &Args) {
             // what the archive describes
             let (ms, ta) = members(&t, o, &mut rng);
             let zb = zip_bytes(&ms, o);
-            push(&mut cases, &ta, format!("zip {o:?}"), probe(Zip::from_bytes(zb.clone()).unwrap(), &t, true));
+            let qz = probe(Zip::from_bytes(zb.clone()).unwrap(), &t, true);
             let tb = tar_bytes(&ms);
-            push(&mut cases, &ta, format!("tar {o:?}"), probe(Tar::from_bytes(tb.clone()).unwrap(), &t, true));
+            let qt = probe(Tar::from_bytes(tb.clone()).unwrap(), &t, true);
+            // the same answers against the index model, members in archive order
+            let msc = clist(&ms.iter().map(member_coq).collect::<Vec<_>>());
+            for (kind, qa) in [("zip", &qz), ("tar", &qt)] {
+                let only_src: Vec<String> = qa.iter().filter(|q| q.starts_with("(QRead") || q.starts_with("(QExists")).cloned().collect();
+                arch.push((
+                    format!("({}, {})", msc, clist(&only_src)),
+                    format!("{{\"source\": {}, \"members\": {}, \"questions\": {}}}", jstr(&format!("{kind} {o:?}")), jstr(&format!("{:?}", ms.iter().map(|m| match m { Member::File(p, _) => p.clone(), Member::Dir(p) => p.clone() }).collect::<Vec<_>>())), only_src.len()),
+                    ms.len() >= 3,
+                ));
+            }
+            push(&mut cases, &ta, format!("zip {o:?}"), qz);
+            push(&mut cases, &ta, format!("tar {o:?}"), qt);
             if v == 0 {
                 let zp = base.join(format!("t{i}.zip"));
                 std::fs::write(&zp, &zb).unwrap();
@@ -451,6 +486,9 @@ pub fn run(a: &Args) {
     }
     let _ = std::fs::remove_dir_all(&base);
     drop(push);
+    for (coq, json, nt) in arch {
+        cases.push_nt(ga, coq, json, nt);
+    }
     if !iter_bad.is_empty() {
         let f: String = iter_bad
             .iter()
@@ -462,13 +500,13 @@ pub fn run(a: &Args) {
     cases.write(
         &a.out,
         "srcdiff",
-        "From AM Require Import Ref.Tree Corr.SrcCheck.",
-        &[("src_cases", "src_check")],
+        "From AM Require Import Ref.Tree Ref.Archive Corr.SrcCheck.",
+        &[("src_cases", "src_check"), ("arch_cases", "arch_check")],
     );
     std::fs::write(
         format!("{}/srcdiff.summary.json", a.out),
         format!(
-            "{{\"engine\": \"srcdiff\", \"explain\": {{\"src_cases\": \"src_explain\"}}, \"evaluations\": {}, \"distinct_nontrivial\": {}, \"samples\": {}, \"distribution\": {{\"sources\": {}}}}}",
+            "{{\"engine\": \"srcdiff\", \"explain\": {{\"src_cases\": \"src_explain\", \"arch_cases\": \"arch_explain\"}}, \"evaluations\": {}, \"distinct_nontrivial\": {}, \"samples\": {}, \"distribution\": {{\"sources\": {}}}}}",
             cases.total(),
             cases.distinct_nontrivial(),
             cases.samples_json(),
